@@ -49,9 +49,14 @@ def _test_calls(fnode, mod):
             tests.append(n.test)
         elif isinstance(n, ast.comprehension):
             tests.extend(n.ifs)
-    for t in tests:
+    todo = list(tests)
+    while todo:
+        t = todo.pop(0)
         while isinstance(t, ast.UnaryOp) and isinstance(t.op, ast.Not):
             t = t.operand
+        if isinstance(t, ast.BoolOp):
+            todo = list(t.values) + todo
+            continue
         if isinstance(t, ast.Call) and isinstance(t.func, ast.Name) and \
                 t.func.id in mod.funcs:
             out.append(mod.funcs[t.func.id])
@@ -101,12 +106,21 @@ def discover(prog):
     P.tinit = tinit
     P.atoms_fn = None
     P.edge_pred = None
+    cands = []
     for c in calls_in(tinit.node):
         if isinstance(c, ClassInfo):
             continue
         src = ast.unparse(c.node)
         if 'sorted(' in src or '.sort(' in src:
-            P.atoms_fn = c
+            cands.append(c)
+    # the atom builder also makes the atoms (instantiates a class of the
+    # module); another helper that happens to sort something does not
+    makers = [c for c in cands if any(isinstance(x, ClassInfo)
+                                      for x in calls_in(c.node))]
+    if makers:
+        P.atoms_fn = makers[-1]
+    elif cands:
+        P.atoms_fn = cands[-1]
     for fn in _test_calls(tinit.node, mod):
         P.edge_pred = fn
     from .c15 import tableau_alphabet
